@@ -27,7 +27,7 @@ func newExec(prog *Program, cs *ContractSet, fn *ssa.Function, con *Contract) *E
 		smtFunSorts: map[string]string{}, usedContracts: map[string]bool{}}
 	declBitFuns(x.c)
 	x.c.constArr("Int", "Bytes", "bempty") // named zarr!Int_Bytes_bempty, used by contract SMT text
-	for _, b := range cs.SMT {
+	for _, b := range orderSMT(cs.SMT) {
 		x.c.P.axiom(b.Name, b.Triggers, b.Text)
 		for _, m := range defResultRe.FindAllStringSubmatch(b.Text, -1) {
 			x.smtFunSorts[m[1]] = m[2]
@@ -71,6 +71,10 @@ func (x *Exec) verifyFunction() {
 		s.assume(t)
 	}
 	x.entry = s.clone()
+	if con.Opts["prune"] != "0" {
+		x.pruner = newPruner()
+		defer x.pruner.close()
+	}
 	// vacuity: the precondition must be satisfiable
 	x.cover(s, "requires_sat")
 	x.runBlock(s, cloneEnv(env), &Frame{fn: fn, isTop: true}, fn.Blocks[0], nil)
@@ -91,8 +95,12 @@ func (x *Exec) specEnv(s *State, env map[ssa.Value]*Val, at *ssa.BasicBlock) *Sp
 	} else if x.fn.Parent() != nil && x.fn.Parent().Pkg != nil {
 		pkg = x.fn.Parent().Pkg.Pkg
 	}
-	old := &SpecEnv{x: x, s: x.entry, vars: oldVars, pkg: pkg, bound: map[string]string{}}
-	return &SpecEnv{x: x, s: s, old: old, vars: vars, pkg: pkg, bound: map[string]string{}}
+	var lets [][2]string
+	if x.con != nil {
+		lets = x.con.Lets
+	}
+	old := &SpecEnv{x: x, s: x.entry, vars: oldVars, pkg: pkg, bound: map[string]string{}, lets: lets}
+	return &SpecEnv{x: x, s: s, old: old, vars: vars, pkg: pkg, bound: map[string]string{}, lets: lets}
 }
 
 func (x *Exec) curSpecEnv(s *State) *SpecEnv {
@@ -311,6 +319,7 @@ func (x *Exec) rehavoc(s *State, v *Val, ph *ssa.Phi) *Val {
 }
 
 func (x *Exec) havocObjPaths(s *State, id int, paths [][]int) {
+	s.ver++
 	m := x.objMeta[id]
 	whole := false
 	for _, p := range paths {
@@ -421,8 +430,8 @@ func (x *Exec) applyContract(s *State, fn *ssa.Function, con *Contract, args []*
 	if fn.Pkg != nil {
 		pkg = fn.Pkg.Pkg
 	}
-	oldEnv := &SpecEnv{x: x, s: pre, vars: vars, pkg: pkg, bound: map[string]string{}}
-	se := &SpecEnv{x: x, s: s, old: oldEnv, vars: vars, pkg: pkg, bound: map[string]string{}}
+	oldEnv := &SpecEnv{x: x, s: pre, vars: vars, pkg: pkg, bound: map[string]string{}, lets: con.Lets}
+	se := &SpecEnv{x: x, s: s, old: oldEnv, vars: vars, pkg: pkg, bound: map[string]string{}, lets: con.Lets}
 	x.counter["call."+fn.Name()]++
 	for i, r := range con.Requires {
 		lbl := r.Label
@@ -545,4 +554,35 @@ func (x *Exec) stHavocTouch(s *State, n string) {
 	if x.disc != nil {
 		x.disc.state[n] = true
 	}
+}
+
+// orderSMT puts a contract SMT block after the blocks that define the symbols it uses.
+func orderSMT(bs []smtBlock) []smtBlock {
+	var out []smtBlock
+	done := map[string]bool{}
+	var visit func(b smtBlock, depth int)
+	visit = func(b smtBlock, depth int) {
+		if done[b.Name] || depth > 20 {
+			return
+		}
+		done[b.Name] = true
+		for _, o := range bs {
+			if o.Name == b.Name || done[o.Name] {
+				continue
+			}
+			for _, t := range o.Triggers {
+				if containsSym(b.Text, t) {
+					done[b.Name] = false
+					visit(o, depth+1)
+					done[b.Name] = true
+					break
+				}
+			}
+		}
+		out = append(out, b)
+	}
+	for _, b := range bs {
+		visit(b, 0)
+	}
+	return out
 }
